@@ -634,6 +634,10 @@ X_DIV = T("idiv", X_ABS_N, X_ABS_D)
 X_REM = T("-", X_ABS_N, T("*", X_ABS_D, X_DIV))
 
 
+def vop(s):
+    return s.value.op if isinstance(s.value, T) else None
+
+
 def r2_dispatch(facts, rep, names):
     rep.rule("C08-R2", "splitting: the formatter works on neg = (x < 0), whole = floor(|numer| / |denom|), remainder = |numer| - "
                        "|denom| * whole (so 0 <= remainder < denominator, the generator's invariant) and den = |denom|; each of the "
@@ -713,12 +717,13 @@ def r2_dispatch(facts, rep, names):
             bad.append("a path chooses a form without the digit count having been compared with exponent_limit: %s" % s.pc)
             continue
         zs = {p: b for p, b in s.pc.items() if p.startswith("is_zero(")}
-        if s.end == "ret" and s.value.op == "call:" + big:
+        if s.end == "ret" and vop(s) == "call:" + big:
             if dp[0] is not True:
                 bad.append("scientific form on a path with digits >= exponent_limit false")
-        elif s.end == "ret" and s.value.op == "call:" + whole:
+        elif s.end == "ret" and vop(s) == "call:" + whole:
             pass
-        elif s.end in h.heads:
+        elif s.end in h.heads or (s.end == "ret" and vop(s) is None):
+            # the small-fraction form: at one of its loops, or straight to its end (checked by R5)
             pass
         else:
             bad.append("%s %s" % (s.kind, s.value))
@@ -730,10 +735,10 @@ def r2_dispatch(facts, rep, names):
                 a0, a1 = p.args
                 if p.op in ("Ge", "Lt") and isinstance(a0, T) and a0.op == "call:" + dig and a1 == Sym("X"):
                     arg = a0.args[0]
-                    cmp_ok = same(arg, X_DIV, GRID_X) and ((p.op == "Ge") == (b == (s.end == "ret" and s.value.op == "call:" + big)))
+                    cmp_ok = same(arg, X_DIV, GRID_X) and ((p.op == "Ge") == (b == (s.end == "ret" and vop(s) == "call:" + big)))
                 elif p.op in ("Le", "Gt") and a0 == Sym("X") and isinstance(a1, T) and a1.op == "call:" + dig:
                     arg = a1.args[0]
-                    cmp_ok = same(arg, X_DIV, GRID_X) and ((p.op == "Le") == (b == (s.end == "ret" and s.value.op == "call:" + big)))
+                    cmp_ok = same(arg, X_DIV, GRID_X) and ((p.op == "Le") == (b == (s.end == "ret" and vop(s) == "call:" + big)))
                 if not cmp_ok:
                     bad.append("the form is chosen by %r = %s" % (p, b))
     if not cmp_ok:
@@ -754,7 +759,7 @@ def r2_dispatch(facts, rep, names):
                     bad.append("a zero test of %r takes part in the choice of the form" % (p.args[0],))
         plain = (zd is False) or (zd is True and zr is True)
         smallp = (zd is True and zr is False)
-        if s.end == "ret" and s.value.op == "call:" + whole and not plain:
+        if s.end == "ret" and vop(s) == "call:" + whole and not plain:
             bad.append("plain form chosen with whole = 0: %s, remainder = 0: %s" % (zd, zr))
         if s.end in h.heads and not smallp:
             bad.append("small-fraction form chosen with whole = 0: %s, remainder = 0: %s" % (zd, zr))
